@@ -252,7 +252,7 @@ pub open spec fn obeys<F: Fn(&mut Map, &SharedString, &SharedString)>(f: F, over
 }
 
 //@ITEM file=metrics-tracing-context/src/tracing_integration.rs sel=impl Labels :: fn extend
-//@REWRITE R27 cmp::max( ==> shim_max(
+//@REWRITE R27? cmp::max( ==> shim_max(
 //@FORLOOP 1 it shim_map_iter shim_map_next
 //@SPEC
     requires forall|m: &mut Map, k: &SharedString, v: &SharedString| f.requires((m, k, v)),
